@@ -1,1 +1,359 @@
-//! Placeholder: small unsigned bigint (filled in with C07/C19).
+//! Small arbitrary-precision integers (no bigint crate is available offline). Used by the exact
+//! decimal oracle (C07) and the correct-rounding oracle for literals (C19). Tested against u128 in
+//! `selftest`.
+
+use std::cmp::Ordering;
+
+#[derive(Clone, PartialEq, Eq, Debug, Default)]
+pub struct BigU {
+    /// little-endian 32-bit limbs, no trailing zero limbs
+    pub l: Vec<u32>,
+}
+
+impl BigU {
+    pub fn zero() -> BigU {
+        BigU { l: Vec::new() }
+    }
+    pub fn from_u128(mut v: u128) -> BigU {
+        let mut l = Vec::new();
+        while v > 0 {
+            l.push(v as u32);
+            v >>= 32;
+        }
+        BigU { l }
+    }
+    pub fn from_u64(v: u64) -> BigU {
+        BigU::from_u128(v as u128)
+    }
+    pub fn to_u128(&self) -> Option<u128> {
+        if self.l.len() > 4 {
+            return None;
+        }
+        let mut v: u128 = 0;
+        for (i, x) in self.l.iter().enumerate() {
+            v |= (*x as u128) << (32 * i);
+        }
+        Some(v)
+    }
+    pub fn is_zero(&self) -> bool {
+        self.l.is_empty()
+    }
+    fn trim(&mut self) {
+        while let Some(0) = self.l.last() {
+            self.l.pop();
+        }
+    }
+    pub fn bits(&self) -> u64 {
+        match self.l.last() {
+            None => 0,
+            Some(top) => (self.l.len() as u64 - 1) * 32 + (32 - top.leading_zeros() as u64),
+        }
+    }
+    pub fn bit(&self, i: u64) -> bool {
+        let (w, b) = ((i / 32) as usize, i % 32);
+        w < self.l.len() && (self.l[w] >> b) & 1 == 1
+    }
+    pub fn cmp(&self, o: &BigU) -> Ordering {
+        if self.l.len() != o.l.len() {
+            return self.l.len().cmp(&o.l.len());
+        }
+        for i in (0..self.l.len()).rev() {
+            if self.l[i] != o.l[i] {
+                return self.l[i].cmp(&o.l[i]);
+            }
+        }
+        Ordering::Equal
+    }
+    pub fn add(&self, o: &BigU) -> BigU {
+        let n = self.l.len().max(o.l.len());
+        let mut l = Vec::with_capacity(n + 1);
+        let mut carry = 0u64;
+        for i in 0..n {
+            let s = *self.l.get(i).unwrap_or(&0) as u64 + *o.l.get(i).unwrap_or(&0) as u64 + carry;
+            l.push(s as u32);
+            carry = s >> 32;
+        }
+        if carry > 0 {
+            l.push(carry as u32);
+        }
+        BigU { l }
+    }
+    /// self - o, requires self >= o
+    pub fn sub(&self, o: &BigU) -> BigU {
+        debug_assert!(self.cmp(o) != Ordering::Less);
+        let mut l = Vec::with_capacity(self.l.len());
+        let mut borrow = 0i64;
+        for i in 0..self.l.len() {
+            let mut d = self.l[i] as i64 - *o.l.get(i).unwrap_or(&0) as i64 - borrow;
+            if d < 0 {
+                d += 1 << 32;
+                borrow = 1;
+            } else {
+                borrow = 0;
+            }
+            l.push(d as u32);
+        }
+        let mut r = BigU { l };
+        r.trim();
+        r
+    }
+    pub fn mul(&self, o: &BigU) -> BigU {
+        if self.is_zero() || o.is_zero() {
+            return BigU::zero();
+        }
+        let mut l = vec![0u32; self.l.len() + o.l.len()];
+        for i in 0..self.l.len() {
+            let mut carry = 0u64;
+            let a = self.l[i] as u64;
+            for j in 0..o.l.len() {
+                let t = a * o.l[j] as u64 + l[i + j] as u64 + carry;
+                l[i + j] = t as u32;
+                carry = t >> 32;
+            }
+            let mut k = i + o.l.len();
+            while carry > 0 {
+                let t = l[k] as u64 + carry;
+                l[k] = t as u32;
+                carry = t >> 32;
+                k += 1;
+            }
+        }
+        let mut r = BigU { l };
+        r.trim();
+        r
+    }
+    pub fn mul_small(&self, m: u32) -> BigU {
+        let mut l = Vec::with_capacity(self.l.len() + 1);
+        let mut carry = 0u64;
+        for x in &self.l {
+            let t = *x as u64 * m as u64 + carry;
+            l.push(t as u32);
+            carry = t >> 32;
+        }
+        if carry > 0 {
+            l.push(carry as u32);
+        }
+        let mut r = BigU { l };
+        r.trim();
+        r
+    }
+    pub fn divrem_small(&self, d: u32) -> (BigU, u32) {
+        let mut l = vec![0u32; self.l.len()];
+        let mut rem = 0u64;
+        for i in (0..self.l.len()).rev() {
+            let cur = (rem << 32) | self.l[i] as u64;
+            l[i] = (cur / d as u64) as u32;
+            rem = cur % d as u64;
+        }
+        let mut r = BigU { l };
+        r.trim();
+        (r, rem as u32)
+    }
+    pub fn shl(&self, bits: u64) -> BigU {
+        if self.is_zero() {
+            return BigU::zero();
+        }
+        let (w, b) = ((bits / 32) as usize, (bits % 32) as u32);
+        let mut l = vec![0u32; w];
+        if b == 0 {
+            l.extend_from_slice(&self.l);
+        } else {
+            let mut carry = 0u32;
+            for x in &self.l {
+                l.push((x << b) | carry);
+                carry = x >> (32 - b);
+            }
+            if carry > 0 {
+                l.push(carry);
+            }
+        }
+        BigU { l }
+    }
+    pub fn shr(&self, bits: u64) -> BigU {
+        let (w, b) = ((bits / 32) as usize, (bits % 32) as u32);
+        if w >= self.l.len() {
+            return BigU::zero();
+        }
+        let mut l = Vec::with_capacity(self.l.len() - w);
+        for i in w..self.l.len() {
+            let lo = self.l[i] >> b;
+            let hi = if b > 0 && i + 1 < self.l.len() { self.l[i + 1] << (32 - b) } else { 0 };
+            l.push(lo | hi);
+        }
+        let mut r = BigU { l };
+        r.trim();
+        r
+    }
+    /// schoolbook shift-subtract division (operands here are a few hundred to a few thousand bits)
+    pub fn divrem(&self, d: &BigU) -> (BigU, BigU) {
+        assert!(!d.is_zero());
+        if self.cmp(d) == Ordering::Less {
+            return (BigU::zero(), self.clone());
+        }
+        if d.l.len() == 1 {
+            let (q, r) = self.divrem_small(d.l[0]);
+            return (q, BigU::from_u64(r as u64));
+        }
+        let shift = self.bits() - d.bits();
+        let mut rem = self.clone();
+        let mut q = BigU { l: vec![0u32; (shift / 32 + 1) as usize] };
+        let mut dd = d.shl(shift);
+        let mut i = shift as i64;
+        while i >= 0 {
+            if rem.cmp(&dd) != Ordering::Less {
+                rem = rem.sub(&dd);
+                q.l[(i / 32) as usize] |= 1 << (i % 32);
+            }
+            dd = dd.shr(1);
+            i -= 1;
+        }
+        q.trim();
+        (q, rem)
+    }
+    pub fn pow10(n: u32) -> BigU {
+        let mut r = BigU::from_u64(1);
+        let mut k = n;
+        while k >= 9 {
+            r = r.mul_small(1_000_000_000);
+            k -= 9;
+        }
+        for _ in 0..k {
+            r = r.mul_small(10);
+        }
+        r
+    }
+    pub fn from_dec_str(s: &str) -> Option<BigU> {
+        let mut r = BigU::zero();
+        if s.is_empty() {
+            return None;
+        }
+        for chunk in s.as_bytes().chunks(9) {
+            let mut v = 0u32;
+            for c in chunk {
+                if !c.is_ascii_digit() {
+                    return None;
+                }
+                v = v * 10 + (c - b'0') as u32;
+            }
+            r = r.mul_small(10u32.pow(chunk.len() as u32)).add(&BigU::from_u64(v as u64));
+        }
+        Some(r)
+    }
+    pub fn to_dec_string(&self) -> String {
+        if self.is_zero() {
+            return "0".into();
+        }
+        let mut parts = Vec::new();
+        let mut cur = self.clone();
+        while !cur.is_zero() {
+            let (q, r) = cur.divrem_small(1_000_000_000);
+            parts.push(r);
+            cur = q;
+        }
+        let mut s = format!("{}", parts.pop().unwrap());
+        while let Some(p) = parts.pop() {
+            s.push_str(&format!("{:09}", p));
+        }
+        s
+    }
+    pub fn is_even(&self) -> bool {
+        self.l.first().map(|x| x & 1 == 0).unwrap_or(true)
+    }
+}
+
+/// Signed big integer.
+#[derive(Clone, PartialEq, Eq, Debug, Default)]
+pub struct BigI {
+    pub neg: bool,
+    pub m: BigU,
+}
+
+impl BigI {
+    pub fn zero() -> BigI {
+        BigI { neg: false, m: BigU::zero() }
+    }
+    pub fn from_i128(v: i128) -> BigI {
+        BigI { neg: v < 0, m: BigU::from_u128(v.unsigned_abs()) }
+    }
+    pub fn from_parts(neg: bool, m: BigU) -> BigI {
+        let neg = neg && !m.is_zero();
+        BigI { neg, m }
+    }
+    pub fn is_zero(&self) -> bool {
+        self.m.is_zero()
+    }
+    pub fn neg(&self) -> BigI {
+        BigI::from_parts(!self.neg, self.m.clone())
+    }
+    pub fn abs(&self) -> BigI {
+        BigI::from_parts(false, self.m.clone())
+    }
+    pub fn add(&self, o: &BigI) -> BigI {
+        if self.neg == o.neg {
+            BigI::from_parts(self.neg, self.m.add(&o.m))
+        } else {
+            match self.m.cmp(&o.m) {
+                Ordering::Equal => BigI::zero(),
+                Ordering::Greater => BigI::from_parts(self.neg, self.m.sub(&o.m)),
+                Ordering::Less => BigI::from_parts(o.neg, o.m.sub(&self.m)),
+            }
+        }
+    }
+    pub fn sub(&self, o: &BigI) -> BigI {
+        self.add(&o.neg())
+    }
+    pub fn mul(&self, o: &BigI) -> BigI {
+        BigI::from_parts(self.neg != o.neg, self.m.mul(&o.m))
+    }
+    pub fn cmp(&self, o: &BigI) -> Ordering {
+        match (self.neg, o.neg) {
+            (false, true) => Ordering::Greater,
+            (true, false) => Ordering::Less,
+            (false, false) => self.m.cmp(&o.m),
+            (true, true) => o.m.cmp(&self.m),
+        }
+    }
+}
+
+pub fn selftest() {
+    // deterministic pseudo-random comparison with u128 arithmetic
+    let mut s: u64 = 0x1234_5678_9abc_def0;
+    let mut next = || {
+        s ^= s << 13;
+        s ^= s >> 7;
+        s ^= s << 17;
+        s
+    };
+    for _ in 0..20000 {
+        let a = (next() as u128) << (next() % 40) | next() as u128 >> (next() % 64);
+        let b = ((next() as u128) >> (next() % 60)).max(1);
+        let (ba, bb) = (BigU::from_u128(a), BigU::from_u128(b));
+        assert_eq!(ba.add(&bb).to_u128(), a.checked_add(b));
+        if a >= b {
+            assert_eq!(ba.sub(&bb).to_u128(), Some(a - b));
+        }
+        if let Some(p) = a.checked_mul(b) {
+            assert_eq!(ba.mul(&bb).to_u128(), Some(p));
+        }
+        let (q, r) = ba.divrem(&bb);
+        assert_eq!(q.to_u128(), Some(a / b));
+        assert_eq!(r.to_u128(), Some(a % b));
+        let sh = next() % 30;
+        if a.leading_zeros() as u64 > sh {
+            assert_eq!(ba.shl(sh).to_u128(), Some(a << sh));
+        }
+        assert_eq!(ba.shr(sh).to_u128(), Some(a >> sh));
+        assert_eq!(BigU::from_dec_str(&a.to_string()).unwrap(), ba);
+        assert_eq!(ba.to_dec_string(), a.to_string());
+        assert_eq!(ba.bits(), 128 - a.leading_zeros() as u64);
+    }
+    // multi-limb division identity: (q*d + r == n, r < d)
+    for _ in 0..2000 {
+        let n = BigU::from_u128(next() as u128 * next() as u128).mul(&BigU::from_u128(next() as u128 * next() as u128)).add(&BigU::from_u64(next()));
+        let d = BigU::from_u128((next() as u128) << (next() % 64) | 1).mul(&BigU::from_u64(next() | 1));
+        let (q, r) = n.divrem(&d);
+        assert!(r.cmp(&d) == Ordering::Less);
+        assert_eq!(q.mul(&d).add(&r), n);
+    }
+    println!("big.rs selftest ok");
+}
